@@ -101,6 +101,22 @@ DidMsgs ==
         UNION { {[type |-> "did.Deactivate", did |-> d, vm |-> v, vmDid |-> d, proof |-> p, from |-> Relayer] :
                             v \in VmNames, p \in ProofsFor(d, DeactDoc(d))} : d \in Dids } ELSE {})
 
+\* simulation aid: DID messages whose proof is made with a current authentication key over the right payload and sequence - for every
+\* (did field, document) combination, including documents about another DID. Uniform sampling of the alphabet almost never draws these.
+DidLikely ==
+    IF Kinds \cap {"did.Create", "did.Update", "did.Deactivate"} = {} THEN {}
+    ELSE UNION { LET c == Cell(didReg, d) IN
+                 IF Status(c) = "absent"
+                 THEN UNION { {[type |-> "did.Create", did |-> d, doc |-> dc, vm |-> a.n, vmDid |-> dc.id,
+                                proof |-> [key |-> k, data |-> dc, seq |-> 0], from |-> Relayer] : a \in dc.auth, k \in AuthKeysOf(dc)} : dc \in AllDocs \ {EmptyDoc} }
+                 ELSE IF Status(c) = "active"
+                 THEN UNION { {[type |-> "did.Update", did |-> d, doc |-> dc, vm |-> a.n, vmDid |-> d,
+                                proof |-> [key |-> k, data |-> dc, seq |-> c.seq], from |-> Relayer] : a \in c.doc.auth, k \in AuthKeysOf(c.doc)} : dc \in AllDocs }
+                      \cup {[type |-> "did.Deactivate", did |-> d, vm |-> a.n, vmDid |-> d,
+                             proof |-> [key |-> k, data |-> DeactDoc(d), seq |-> c.seq], from |-> Relayer] : a \in c.doc.auth, k \in AuthKeysOf(c.doc)}
+                 ELSE {}
+               : d \in Dids }
+
 PnMsgs ==
     (IF "pnft.CreateDenom" \in Kinds THEN
         {[type |-> "pnft.CreateDenom", id |-> i, actor |-> a, name |-> n, symbol |-> "S", desc |-> "", uri |-> "", hash |-> "", data |-> ""] :
@@ -138,7 +154,7 @@ AuthzMsgs ==
 
 Msgs == AolMsgs \cup DidMsgs \cup PnMsgs \cup BankMsgs \cup AuthzMsgs
 
-Pool(n) == IF SimSample = 0 \/ Cardinality(Msgs) <= n THEN Msgs ELSE RandomSubset(n, Msgs)
+Pool(n) == IF SimSample = 0 \/ Cardinality(Msgs) <= n THEN Msgs ELSE RandomSubset(n, Msgs) \cup RandomSubset(IF Cardinality(DidLikely) < 6 THEN Cardinality(DidLikely) ELSE 6, DidLikely)
 
 MsgSeqs == {<<m>> : m \in Pool(SimSample)}
            \cup (IF MaxTxLen >= 2 THEN {<<m1, m2>> : m1 \in Pool(SimSample \div 3 + 1), m2 \in Pool(SimSample \div 3 + 1)} ELSE {})
